@@ -85,13 +85,18 @@ func flagAtNode(fc *core.FuncCFG, info *types.Info, m types.Object, target ast.N
 				continue
 			}
 			s := 1
-			if len(preds[b]) == 0 {
-				s = 0
-			}
+			live := 0
 			for _, p := range preds[b] {
+				if !p.Live {
+					continue // the block go/cfg opens behind a return: nothing flows out of it
+				}
+				live++
 				if out(p) == 0 {
 					s = 0
 				}
+			}
+			if live == 0 {
+				s = 0
 			}
 			if s != in[b] {
 				in[b] = s
@@ -151,14 +156,58 @@ func ruleCollectPackages(c *core.Ctx) {
 	// only reached over the "not on the chain" edge of the test of the chain map
 	var cycleTrue, cycleFalse *ssa.BasicBlock
 	var collLookupBlock, foundSucc *ssa.BasicBlock
+	var foundSuccs []*ssa.BasicBlock
 	ifEdges(sf, func(b *ssa.BasicBlock, cond ssa.Value, t, e *ssa.BasicBlock) {
 		if lk := mapLookupOn(cond, chainP); lk != nil && cycleTrue == nil {
 			cycleTrue, cycleFalse = t, e
 		}
-		if lk := mapLookupOn(cond, collP); lk != nil && foundSucc == nil {
-			collLookupBlock, foundSucc = lk.Block(), t
+		if lk := mapLookupOn(cond, collP); lk != nil {
+			if foundSucc == nil {
+				collLookupBlock, foundSucc = lk.Block(), t
+			}
+			// the outcome may be tested more than once (`case found && same:` ... `case found:`): every true edge
+			// of a test of it leads into the found-region
+			foundSuccs = append(foundSuccs, t)
 		}
 	})
+	// `case found && same:` may be built as a phi of the two tests: the phi is true only when the edge it took
+	// comes from inside the found-region
+	if foundSucc != nil {
+		ifEdges(sf, func(b *ssa.BasicBlock, cond ssa.Value, t, e *ssa.BasicBlock) {
+			phi, ok := cond.(*ssa.Phi)
+			if !ok {
+				return
+			}
+			some := false
+			for i, ed := range phi.Edges {
+				if k, isK := ed.(*ssa.Const); isK && k.Value != nil && k.Value.String() == "false" {
+					continue
+				}
+				pred := phi.Block().Preds[i]
+				if len(foundSucc.Preds) == 1 && (foundSucc == pred || foundSucc.Dominates(pred)) {
+					some = true
+					continue
+				}
+				return
+			}
+			if some {
+				foundSuccs = append(foundSuccs, t)
+			}
+		})
+	}
+	foundRegion := func() []*ssa.BasicBlock {
+		seen := map[*ssa.BasicBlock]bool{}
+		var out []*ssa.BasicBlock
+		for _, fs := range foundSuccs {
+			for _, b := range regionOf(sf, fs) {
+				if !seen[b] {
+					seen[b] = true
+					out = append(out, b)
+				}
+			}
+		}
+		return out
+	}
 	if cycleTrue == nil || foundSucc == nil {
 		c.Undecided(rule, "collectPackages/cycle-test-and-shortcut", d.Pos(), "could not find the test of the import-chain map and the lookup in the collected map")
 	} else {
@@ -174,7 +223,7 @@ func ruleCollectPackages(c *core.Ctx) {
 		// (4) a namespace found under another file is an error: the found-branch has an error return
 		// (conflict) besides the plain return of the collected package
 		hasErr, hasOK := false, false
-		for _, r := range returnsIn(regionOf(sf, foundSucc)) {
+		for _, r := range returnsIn(foundRegion()) {
 			if errResultNonNil(r) {
 				hasErr = true
 			}
@@ -186,7 +235,7 @@ func ruleCollectPackages(c *core.Ctx) {
 		// the shortcut hands back the package that WAS collected (whose imports are resolved), not the freshly read
 		// descriptor: every error-free return of the found-branch returns the value looked up in the collected map
 		okSame, nOK := true, 0
-		for _, r := range returnsIn(regionOf(sf, foundSucc)) {
+		for _, r := range returnsIn(foundRegion()) {
 			if !errResultNil(r) || len(r.Results) < 2 {
 				continue
 			}
@@ -207,7 +256,7 @@ func ruleCollectPackages(c *core.Ctx) {
 			}
 		}
 		inFound := map[*ssa.BasicBlock]bool{}
-		for _, b := range regionOf(sf, foundSucc) {
+		for _, b := range foundRegion() {
 			inFound[b] = true
 		}
 		okReg, nReg := storeBlock != nil, 0
